@@ -185,4 +185,107 @@ theorem gen_extend_correct (e uris : List Str) (i : Nat) (hi : i < uris.length) 
   rw [C03.lookup_nsMapOf, h1]; rfl
 
 
+
+/-! ### `UAGraph._get_namespace_list` -/
+
+theorem pyFoldE_append (g : Int → Str) (f : Int → List Str → Except PyErr (List Str)) (xs : List Int) (l0 : List Str)
+    (hf : ∀ i ∈ xs, ∀ l, f i l = .ok (l ++ [g i])) :
+    pyFoldE f xs l0 = .ok (l0 ++ xs.map g) := by
+  induction xs generalizing l0 with
+  | nil => simp [pyFoldE]
+  | cons x r ih =>
+    simp only [pyFoldE, hf x (by simp)]
+    rw [ih _ (fun i hi => hf i (by simp [hi]))]
+    simp
+
+def castKeys (d : List (Nat × Str)) : List (Int × Str) := d.map fun p => ((p.1 : Int), p.2)
+
+theorem lookup_cast (d : List (Nat × Str)) (k : Nat) : lookup (k : Int) (castKeys d) = lookup k d := by
+  induction d with
+  | nil => rfl
+  | cons p r ih =>
+    obtain ⟨a, b⟩ := p
+    simp only [castKeys, List.map_cons, lookup] at ih ⊢
+    by_cases h : a = k
+    · simp [h]
+    · have : ¬ ((a : Int) = (k : Int)) := by omega
+      simp only [h, this, if_false]
+      exact ih
+
+theorem mem_keys_cast (d : List (Nat × Str)) (k : Nat) : ((k : Int) ∈ pyKeys (castKeys d)) ↔ (lookup k d).isSome = true := by
+  induction d with
+  | nil => simp [pyKeys, castKeys, lookup]
+  | cons p r ih =>
+    obtain ⟨a, b⟩ := p
+    simp only [pyKeys, castKeys, List.map_cons, List.map_map, List.mem_cons, lookup] at ih ⊢
+    by_cases h : a = k
+    · simp [h]
+    · have : ¬ ((k : Int) = (a : Int)) := by omega
+      simp only [this, false_or, h, if_false]
+      exact ih
+
+theorem foldl_max_cast (l : List Nat) (a : Nat) :
+    (l.map (fun n : Nat => (n : Int))).foldl max (a : Int) = ((l.foldl max a : Nat) : Int) := by
+  induction l generalizing a with
+  | nil => rfl
+  | cons b r ih =>
+    simp only [List.map_cons, List.foldl_cons]
+    have : max (a : Int) (b : Int) = ((max a b : Nat) : Int) := by omega
+    rw [this, ih]
+
+theorem max_cast (l : List Nat) : (l.map (fun n : Nat => (n : Int))).max? = l.max?.map (fun n : Nat => (n : Int)) := by
+  cases l with
+  | nil => rfl
+  | cons a r => simp only [List.map_cons, List.max?_cons', Option.map_some, foldl_max_cast]
+
+/-- **tie (A) for `UAGraph._Gen.get_namespace_list`**: the definition generated from the source computes the hand
+    model `namespaceListOfDict` (the object of C03's `namespaceList_at`) on every non-empty dict with
+    natural-number keys -/
+theorem getNamespaceList_eq (d : List (Nat × Str)) (hne : d ≠ []) :
+    Gen.get_namespace_list (castKeys d) = .ok (namespaceListOfDict d) := by
+  unfold Gen.get_namespace_list namespaceListOfDict
+  have hk : pyKeys (castKeys d) = (d.map Prod.fst).map (fun n : Nat => (n : Int)) := by
+    simp [pyKeys, castKeys, List.map_map, Function.comp_def]
+  cases hm : (d.map Prod.fst).max? with
+  | none =>
+    exfalso
+    cases d with
+    | nil => exact hne rfl
+    | cons p r => simp [List.max?_cons'] at hm
+  | some m =>
+    have hmax : pyMax (pyKeys (castKeys d)) = .ok (m : Int) := by
+      unfold pyMax
+      rw [hk, max_cast, hm]
+      rfl
+    simp only [hmax, bindE, pyRangeFoldE]
+    have hn : (((m : Int) + 1) - 0).toNat = m + 1 := by omega
+    rw [hn]
+    rw [pyFoldE_append (fun i => (lookup i.toNat d).getD "None".toList)]
+    · simp [List.map_map, Function.comp_def]
+    · intro i hi l
+      simp only [List.mem_map, List.mem_range] at hi
+      obtain ⟨k, _, rfl⟩ := hi
+      have hik : (0 : Int) + (k : Int) = (k : Int) := by omega
+      rw [hik]
+      by_cases hin : (lookup k d).isSome = true
+      · have h1 : pyContains (pyKeys (castKeys d)) (k : Int) = true := by
+          simp [pyContains, PyContains.has, (mem_keys_cast d k).2 hin]
+        obtain ⟨v, hv⟩ := Option.isSome_iff_exists.1 hin
+        simp [h1, pyAssocGet, lookup_cast, hv, bindE, pyListAppend]
+      · have h1 : pyContains (pyKeys (castKeys d)) (k : Int) = false := by
+          have : ¬ ((k : Int) ∈ pyKeys (castKeys d)) := fun h => hin ((mem_keys_cast d k).1 h)
+          simp [pyContains, PyContains.has, this]
+        have hv : lookup k d = none := by
+          cases h : lookup k d with
+          | none => rfl
+          | some v => simp [h] at hin
+        simp [h1, hv, bindE, pyListAppend]
+
+/-- C03's `namespaceList_at`, restated for the generated definition -/
+theorem gen_namespaceList_at (d : List (Nat × Str)) (i : Nat) (u : Str) (h : lookup i d = some u) :
+    ∃ l, Gen.get_namespace_list (castKeys d) = .ok l ∧ l[i]? = some u := by
+  have hne : d ≠ [] := by intro e; subst e; simp [lookup] at h
+  exact ⟨_, getNamespaceList_eq d hne, C03.namespaceList_at d i u h⟩
+
+
 end Opcua.Tie
